@@ -229,8 +229,15 @@ def _elim_returns(stmts, result_name):
             new = ast.copy_location(ast.If(test=st.test, body=(b + r1) or [ast.Pass()], orelse=o + r2), st)
             out.append(new)
             return out, (bret or r1ret) and (oret or r2ret)
+        if isinstance(st, (ast.With, ast.AsyncWith)) and _has_return([st]):
+            # a `with` all of whose paths end in a return: the value is bound inside, the context is left right after
+            inner, iret = _elim_returns(st.body, result_name)
+            if not iret:
+                raise _NoInline()
+            out.append(ast.copy_location(type(st)(items=st.items, body=inner or [ast.Pass()]), st))
+            return out, True
         if _has_return([st]):
-            raise _NoInline()      # return inside a loop / try / with
+            raise _NoInline()      # return inside a loop / try
         out.append(st)
     return out, False
 
